@@ -11,6 +11,7 @@ import os
 
 from core import history_probe, Result, call, ddmin, parallel_map
 from gen import g2
+from corr import cli_annotator
 
 CORPUS_QUICK = ["1A1T_1_B.cif", "1ehz-assembly-1.cif"]
 CORPUS_THOROUGH = CORPUS_QUICK + ["488d.pdb", "4gqj-assembly1.cif", "1DFU_1_M-N.cif", "2HY9.cif"]
@@ -466,6 +467,8 @@ def run(ctx):
                     "dot_bracket": o["dot_bracket"][1][:160] if o["dot_bracket"][0] == "ok" else o["dot_bracket"]})
     external_listings(ctx, res)
     __import__("corr.fn_common", fromlist=["run_fn"]).run_fn(ctx, res, "C06")  # regenerated functions vs the real ones (tools/py2lean.py)
+    # the command-line tool as an observation point (harness/corr/cli_annotator.py)
+    cli_annotator.judge(res, "C06", cli_annotator.evaluate(ctx))
     return res
 
 
@@ -560,6 +563,8 @@ def _eval_one(ctx, inp):
 
 def shrink(ctx, failure):
     """smallest sub-list of pairs that still shows the same signature"""
+    if cli_annotator.is_cli(failure.get("input")):
+        return failure
     inp = dict(failure["input"])
     sig = failure["signature"]
 
@@ -580,6 +585,8 @@ def shrink(ctx, failure):
 
 def replay(ctx, data):
     """re-run one stored input through implementation, model and specification predicates"""
+    if cli_annotator.is_cli(data.get("input")):
+        return cli_annotator.replay_cli("C06", data["input"])
     inp = data["input"]
     o, pc, f = _eval_one(ctx, inp)
     print("pairs:", inp["pairs"], "find_gaps:", inp["find_gaps"])
